@@ -395,6 +395,7 @@ Section ReadExact.
   Variable id : nat.
   Variable lookup : Z -> option chunk.
   Variable under : cache -> chunk -> option (bytes * cache).
+  Variable env : nat -> bool -> cache -> cache.   (* interference between the cache operations of the call *)
   Variable data : bytes.                      (* the content of the file *)
   Variable Hon : cache -> Prop.               (* "the cache is honest" (for all files of the layer) *)
 
@@ -403,6 +404,7 @@ Section ReadExact.
   Hypothesis Hlk : LookupSpec lookup n.
   Hypothesis Hon_get : forall c o s v, Hon c -> c (id, o, s) = Some v -> v = slice o s data.
   Hypothesis Hon_add : forall c o s, Hon c -> Hon (cadd c (id, o, s) (slice o s data)).
+  Hypothesis Henv : forall k b c, Hon c -> Hon (env k b c).
   Hypothesis Hunder : forall c ch, Hon c -> 0 <= c_off ch -> 0 <= c_size ch -> c_off ch + c_size ch <= n ->
     exists c', under c ch = Some (slice (c_off ch) (c_size ch) data, c') /\ Hon c'.
 
@@ -410,11 +412,13 @@ Section ReadExact.
     Hon c -> 0 <= offset -> 0 <= nr <= plen -> plen - nr < Z.of_nat fuel ->
     nr <= Z.max 0 (n - offset) ->
     acc = slice offset nr data ->
-    exists c' tr', read_loop id lookup under fuel c offset plen nr acc tr
+    exists c' tr', read_loop id lookup under env fuel c offset plen nr acc tr
                    = (ROk (slice offset (Z.min plen (n - offset)) data), c', tr') /\ Hon c'.
   Proof.
     induction fuel as [|fu IH]; intros c offset plen nr acc tr Hc Hoff Hnr Hfuel Hmax Hacc; [lia|].
     cbn [read_loop].
+    assert (Hc0 : Hon (env fu true c)) by (apply Henv; assumption).
+    clear Hc. revert Hc0. generalize (env fu true c). clear c. intros c Hc.
     destruct (nr <? plen) eqn:Enr.
     2:{ exists c, tr. split; [|assumption]. subst acc.
         rewrite (slice_eq_len data offset nr (Z.min plen (n - offset))) by lia. reflexivity. }
@@ -437,7 +441,7 @@ Section ReadExact.
     { apply slice_app; lia. }
     assert (Hmax' : nr + expected <= Z.max 0 (n - offset)) by lia.
     assert (Hstep : forall c1 tr1, Hon c1 ->
-      exists c' tr', read_loop id lookup under fu c1 offset plen (nr + expected) (acc ++ slice (offset + nr) expected data) tr1
+      exists c' tr', read_loop id lookup under env fu c1 offset plen (nr + expected) (acc ++ slice (offset + nr) expected data) tr1
                      = (ROk (slice offset (Z.min plen (n - offset)) data), c', tr') /\ Hon c').
     { intros c1 tr1 Hc1. apply IH; try assumption; try lia. subst acc. exact Hnext. }
     destruct (c (id, co, cs)) as [v|] eqn:Ec.
@@ -461,8 +465,8 @@ Section ReadExact.
         rewrite Hu. rewrite Hdl. rewrite Z.eqb_refl.
         assert (Hcs : cs = expected) by lia.
         assert (Hco' : co = offset + nr) by (unfold lower in *; lia).
-        destruct (Hstep (cadd c1 (id, co, cs) (slice co cs data)) (tr ++ [EGet (id, co, cs) false; EUnder co cs])
-                        (Hon_add _ _ _ Hc1)) as (c' & tr' & Heq & Hc').
+        destruct (Hstep (cadd (env fu false c1) (id, co, cs) (slice co cs data)) (tr ++ [EGet (id, co, cs) false; EUnder co cs])
+                        (Hon_add _ _ _ (Henv _ _ _ Hc1))) as (c' & tr' & Heq & Hc').
         exists c', tr'. split; [|assumption]. rewrite <- Heq. rewrite <- Hcs, <- Hco'. reflexivity.
       + replace (cs <? 0) with false by lia.
         rewrite Hu. rewrite Hdl. rewrite Z.eqb_refl.
@@ -478,12 +482,12 @@ Section ReadExact.
         assert (Hall : slice 0 expected (slice (offset + nr) expected data) = slice (offset + nr) expected data).
         { rewrite <- Hlen at 1. apply slice_all. }
         rewrite Hall.
-        apply Hstep. apply Hon_add. assumption.
+        apply Hstep. apply Hon_add. apply Henv. assumption.
   Qed.
 
   (* read_exact, one call *)
   Lemma read_at_exact : forall c offset plen, Hon c -> 0 <= offset -> 0 <= plen ->
-    exists c' tr', read_at id lookup under c offset plen = (ROk (slice offset (Z.min plen (n - offset)) data), c', tr') /\ Hon c'.
+    exists c' tr', read_at id lookup under env c offset plen = (ROk (slice offset (Z.min plen (n - offset)) data), c', tr') /\ Hon c'.
   Proof.
     intros c offset plen Hc Ho Hp. unfold read_at.
     apply read_loop_exact; try assumption; try lia.
@@ -546,6 +550,22 @@ Proof.
 Qed.
 
 (* one read of one file of a well-formed layer, for every honest cache *)
+(* one read of one file of a well-formed layer, for every honest cache and every honest interference between the
+   cache operations of the call (concurrent readers, prefetch, background fetch, eviction) *)
+Lemma read_file_env_exact : forall L i env c off len,
+  LayerOK L -> Honest L c -> (forall k b c0, Honest L c0 -> Honest L (env k b c0)) -> 0 <= off -> 0 <= len ->
+  exists c' tr, read_file_env L i env c off len
+                = (ROk (slice off (Z.min len (zlen (f_data (file_at L i)) - off)) (f_data (file_at L i))), c', tr)
+                /\ Honest L c'.
+Proof.
+  intros L i env c off len HL Hc He Ho Hl. unfold read_file_env.
+  apply (read_at_exact i _ _ env (f_data (file_at L i)) (Honest L)); try assumption.
+  - apply chunk_for_offset_spec. apply (file_at_ok L i HL).
+  - intros c0 o s v H0 Hg. apply (H0 _ _ Hg).
+  - intros c0 o s H0. apply (honest_cadd L c0 (i, o, s)). assumption.
+  - intros c0 ch H0 _ _ _. eexists. split; [reflexivity|]. apply honest_add_honest. assumption.
+Qed.
+
 Lemma read_file_exact : forall L i c off len,
   LayerOK L -> Honest L c -> 0 <= off -> 0 <= len ->
   exists c' tr, read_file L i c off len
@@ -553,11 +573,7 @@ Lemma read_file_exact : forall L i c off len,
                 /\ Honest L c'.
 Proof.
   intros L i c off len HL Hc Ho Hl. unfold read_file.
-  apply (read_at_exact i _ _ (f_data (file_at L i)) (Honest L)); try assumption.
-  - apply chunk_for_offset_spec. apply (file_at_ok L i HL).
-  - intros c0 o s v H0 Hg. apply (H0 _ _ Hg).
-  - intros c0 o s H0. apply (honest_cadd L c0 (i, o, s)). assumption.
-  - intros c0 ch H0 _ _ _. eexists. split; [reflexivity|]. apply honest_add_honest. assumption.
+  apply read_file_env_exact; try assumption. intros _ _ c0 H0. exact H0.
 Qed.
 
 (* the ops an adversary may use: any read with a non-negative offset and length; any interference that leaves
